@@ -352,9 +352,19 @@ def process_dict_breadth_first(parent_node, type_name, value, func=lambda x, y: 
     :return (list): the collected child nodes
     """
     # we wrap the keys() in a call to list to prevent concurrent changes
-    return [Node(value=NodeValue(func(type_name, key), value[key], key), parent=parent_node) for key in
-            list(value.keys()) if
+    # keys are not always strings ({1: 'a'}, {(1, 2): 'b'}, non-str attribute names): the child is named by the key's text
+    return [Node(value=NodeValue(func(type_name, __key_name(key)), value[key], __key_name(key)), parent=parent_node)
+            for key in list(value.keys()) if
             key in value]
+
+
+def __key_name(key) -> str:
+    if isinstance(key, str):
+        return key
+    try:
+        return str(key)
+    except BaseException:
+        return f'{type(key)}@{id(key)}'
 
 
 def process_list_breadth_first(var_collector: Collector, parent_node: ParentNode, value) -> List[Node]:
